@@ -32,6 +32,7 @@ type sweepResult struct {
 	ledger      map[string]bool
 	notes       map[string]bool
 	skipped     []string
+	knownUndecided map[string]bool // undecided on the pinned tree (never replayed again)
 	contracted  map[*Oblig]bool // obligations of functions whose contract carries the safety flag: always claimed
 }
 
@@ -125,12 +126,15 @@ func (eng *Engine) requestCone() []*ssa.Function {
 func ledgerPath(verif, prop string) string { return filepath.Join(verif, "ledger", prop+".json") }
 
 func (eng *Engine) runSweep(prop, verif string, update bool) *sweepResult {
-	sw := &sweepResult{prop: prop, assumed: map[string]bool{}, ledger: map[string]bool{}, notes: map[string]bool{}, contracted: map[*Oblig]bool{}}
+	sw := &sweepResult{prop: prop, assumed: map[string]bool{}, ledger: map[string]bool{}, notes: map[string]bool{}, contracted: map[*Oblig]bool{}, knownUndecided: map[string]bool{}}
 	if data, err := os.ReadFile(ledgerPath(verif, prop)); err == nil {
-		var ids []string
-		json.Unmarshal(data, &ids)
-		for _, id := range ids {
+		var lf ledgerFile
+		json.Unmarshal(data, &lf)
+		for _, id := range lf.Discharged {
 			sw.ledger[id] = true
+		}
+		for _, id := range lf.Undecided {
+			sw.knownUndecided[id] = true
 		}
 	}
 	sw.cone = eng.requestCone()
@@ -193,19 +197,26 @@ func (eng *Engine) runSweep(prop, verif string, update bool) *sweepResult {
 
 func (sw *sweepResult) finish(eng *Engine, verif string, update bool) {
 	if update {
-		var ids []string
+		var lf ledgerFile
 		for _, o := range sw.obls {
 			if o.Result == "unsat" {
-				ids = append(ids, o.ID)
+				lf.Discharged = append(lf.Discharged, o.ID)
+			} else {
+				lf.Undecided = append(lf.Undecided, o.ID)
 			}
 		}
-		sort.Strings(ids)
+		sort.Strings(lf.Discharged)
+		sort.Strings(lf.Undecided)
 		os.MkdirAll(filepath.Join(verif, "ledger"), 0o755)
-		data, _ := json.MarshalIndent(ids, "", " ")
+		data, _ := json.MarshalIndent(lf, "", " ")
 		os.WriteFile(ledgerPath(verif, sw.prop), append(data, '\n'), 0o644)
 		sw.ledger = map[string]bool{}
-		for _, id := range ids {
+		sw.knownUndecided = map[string]bool{}
+		for _, id := range lf.Discharged {
 			sw.ledger[id] = true
+		}
+		for _, id := range lf.Undecided {
+			sw.knownUndecided[id] = true
 		}
 	}
 	for _, o := range sw.obls {
@@ -244,7 +255,12 @@ func (sw *sweepResult) finish(eng *Engine, verif string, update bool) {
 }
 
 // known: undecided obligations listed as accepted-undecided in the ledger's companion file never replay.
-func (sw *sweepResult) known(verif string, o *Oblig) bool { return false }
+func (sw *sweepResult) known(verif string, o *Oblig) bool { return sw.knownUndecided[o.ID] }
+
+type ledgerFile struct {
+	Discharged []string `json:"discharged"`
+	Undecided  []string `json:"undecided_on_pinned_tree"`
+}
 
 func (sw *sweepResult) summary() map[string]interface{} {
 	kinds := map[string]int{}
